@@ -550,7 +550,11 @@ class Machine:
         if k == "num":
             s = e[1].lower()
             if re.search(r"[.de]", s):
-                return o.real_literal(s.replace("d", "e"))
+                if "_" in s:
+                    raise Unsupported("kind suffix on a real literal: %s" % s)
+                # a real literal without a d exponent is of DEFAULT (single) precision in Fortran: its value is the
+                # nearest binary32 number (1e-05 is 9.99999974737875e-06); with a d exponent it is double precision
+                return o.real_literal(s.replace("d", "e"), single="d" not in s)
             return int(s)
         if k == "bool":
             return e[1]
@@ -892,7 +896,14 @@ class FloatOps:
     """Plain IEEE doubles / Python ints: used for the conformance run against
     gfortran."""
 
-    def real_literal(self, s):
+    def real_literal(self, s, single=False):
+        if single:
+            import numpy as np
+            with np.errstate(over="ignore"):
+                v = float(np.float32(float(s)))
+            if v in (float("inf"), float("-inf")):
+                raise Unsupported("single-precision literal %s overflows its kind (gfortran rejects the module)" % s)
+            return v
         return float(s)
 
     def real(self, v):
@@ -997,8 +1008,15 @@ class SymOps:
             return True
         return isinstance(v, self.symx.SymNum) and v.is_int
 
-    def real_literal(self, s):
+    def real_literal(self, s, single=False):
         from fractions import Fraction
+        if single:
+            import numpy as np
+            with np.errstate(over="ignore"):
+                v = float(np.float32(float(s)))
+            if v in (float("inf"), float("-inf")):
+                raise Unsupported("single-precision literal %s overflows its kind (gfortran rejects the module)" % s)
+            return self.symx.SymNum(self.z3.RealVal(str(Fraction(v))))
         return self.symx.SymNum(self.z3.RealVal(str(Fraction(s))))
 
     def real(self, v):
